@@ -22,6 +22,8 @@ structure St where
   consensus : Bool := false
   prs : PeerState.PRS := {}
   pexMarker : Nat := 0
+  valSize : Int := 4
+  pnetK : Nat := 0
 
 /-- one `sendPacketMsg` whose packet is handed to the receive loop; `false` = nothing pending -/
 def pairStep (p : Pair) : Pair × Bool :=
@@ -156,12 +158,11 @@ def showPRS (p : PeerState.PRS) : String :=
 
 /-- the harness node: height 1, four validators, no last commit -/
 def nodeHeight : Int := 1
-def nodeValSize : Int := 4
 def nodeLastCommitSize : Int := 0
 
 /-- the peer-state transition of an ACCEPTED consensus message (`none` = the handler panics,
 `some none` = ill-formed op line) -/
-def applyMsg (p : PeerState.PRS) (kind : String) (toks : List String) : Option (Option PeerState.PRS) := do
+def applyMsg (nodeValSize : Int) (p : PeerState.PRS) (kind : String) (toks : List String) : Option (Option PeerState.PRS) := do
   let int (k : String) : Option Int := (kv toks k).bind String.toInt?
   match kind with
   | "newroundstep" =>
@@ -198,7 +199,7 @@ def applyMsg (p : PeerState.PRS) (kind : String) (toks : List String) : Option (
   | _ => pure (some p)       -- vote-set-maj23, garbage: the peer state is not touched
 
 /-- the harness's emulation of the gossip routines' calls -/
-def gossipModel (p : PeerState.PRS) (what : String) : Option PeerState.PRS :=
+def gossipModel (nodeValSize : Int) (p : PeerState.PRS) (what : String) : Option PeerState.PRS :=
   match what with
   | "part" =>
     let total : Int := p.pbpTotal
@@ -213,7 +214,7 @@ def gossipModel (p : PeerState.PRS) (what : String) : Option PeerState.PRS :=
       [1, 2].foldl (fun (acc : Option PeerState.PRS) (t : Int) =>
         acc.bind fun q =>
           let v : PeerState.OurVotes := { height := p.height, round := r, type := t, size := nodeValSize, isCommit := t == 2 }
-          if (List.range 4).all fun i => (PeerState.pickSendVote q v (some (i : Int))).isSome
+          if (List.range nodeValSize.toNat).all fun i => (PeerState.pickSendVote q v (some (i : Int))).isSome
           then PeerState.pickSendVote q v (some 0) else none) acc) (some p)
   | _ => some p
 
@@ -310,11 +311,28 @@ def step (st : St) (toks : List String) : St × String :=
       ({ st with pair := some p' },
         ";".intercalate per ++ " err=" ++ (match p'.r.stopped with | some e => showErr e | none => "none"))
     | none => (st, "bad-op")
+  | "pnet" :: rest =>
+    match (kv rest "k").bind String.toNat?, kv rest "type" with
+    | some k, some _ =>
+      if k < 1 ∨ k > 8 then (st, "bad-op") else ({ st with pnetK := k }, s!"ok peers={k}")
+    | _, _ => (st, "bad-op")
+  | "pburst" :: rest =>
+    match (kv rest "per").bind String.toNat? with
+    | some per =>
+      if st.pnetK = 0 ∨ per = 0 then (st, "bad-op") else
+      -- whatever the interleaving of the peers' deliveries: per peer its own messages, in order
+      let parts := (List.range st.pnetK).map fun i =>
+        s!"{i}=" ++ ",".intercalate ((List.range per).map fun j => s!"p{i}-m{j}")
+      (st, ";".intercalate parts ++ s!" peers={st.pnetK} sendfail=0")
+    | none => (st, "bad-op")
   | "reactor" :: rest =>
     match kv rest "kind" with
     | some k =>
       if ["consensus", "mempool", "evidence", "blockchain", "statesync", "pex"].contains k
-      then ({ st with reactor := true, consensus := k == "consensus", prs := {}, pexMarker := 0 }, "ok") else (st, "bad-op")
+      then
+        let vs : Int := (((kv rest "vals").bind String.toInt?).filter (fun x => 0 < x)).getD 4
+        ({ st with reactor := true, consensus := k == "consensus", prs := {}, pexMarker := 0, valSize := vs }, "ok")
+      else (st, "bad-op")
     | none => (st, "bad-op")
   | "rmsg" :: rest =>
     if ¬ st.reactor then (st, "bad-op") else
@@ -334,7 +352,7 @@ def step (st : St) (toks : List String) : St × String :=
       | some v =>
         if v ≠ "ok" then (st, v ++ " " ++ showPRS st.prs)
         else
-          match applyMsg st.prs k rest with
+          match applyMsg st.valSize st.prs k rest with
           | none => (st, "bad-op")
           | some none => (st, "recovered-panic " ++ showPRS st.prs)
           | some (some p') => ({ st with prs := p' }, "ok " ++ showPRS p')
@@ -348,7 +366,7 @@ def step (st : St) (toks : List String) : St × String :=
     if ¬ st.reactor then (st, "bad-op") else
     match kv rest "what" with
     | some w =>
-      match gossipModel st.prs w with
+      match gossipModel st.valSize st.prs w with
       | some p' => ({ st with prs := p' }, "ok " ++ showPRS p')
       | none => (st, "PANIC-outside-recover " ++ showPRS st.prs)
     | none => (st, "bad-op")
